@@ -53,7 +53,13 @@ ZEROS = ["int", "float", "frac", "acc", "int5", "fracq"]   # "any zero value"
 DELTAS = [0, 1, 2, 3, 5, 0.125, 0.5, 0.875, 1.5, 2.25, 2.5, 0.1, 0.3, 1.7,
           3.49, 7, 0.0, 4.625, -1, -0.5, -1e-9, -0.0,
           # almost-integer / almost-half deltas: "nearest" is still decided
-          0.4999999, 1.0000005, 2.9999996, 0.5000004, 1.4999994]
+          0.4999999, 1.0000005, 2.9999996, 0.5000004, 1.4999994,
+          # exact rationals (not float instances): "p/q" decodes to Fraction
+          "13/5", "3/10", "7/4", "1/3"]
+
+
+def dec_delta(d):
+  return Fraction(d) if isinstance(d, str) else d
 CONTAINERS = ["list", "tuple", "gen", "stream", "src", "seqproto"]
 
 
@@ -487,7 +493,7 @@ class C16(Property):
         i, ev = adds.pop(0)
         vals = self._event_values(kind, i, ev["len"],
                                   wl.get("values", "tag"))
-        d = ev["delta"]
+        d = dec_delta(ev["delta"])
         want_err = d < 0
         for st in states:
           try:
